@@ -119,7 +119,7 @@ def _run(ctx, case, net):
     # dynamic barriers: phase 2 starts when every joiner has returned from renew_address();
     # inside phases 2 and 3 the nodes act strictly one at a time ("turn")
     st = {"joined": 0, "turn2": 0, "turn3": 0, "done": 0}
-    end_cap = t0 + int((2.0 + T + 2.0) * 1e9) + len(order) * 4000 * W.MS + len(rel) * int((T + 3.0) * 1e9)
+    end_cap = t0 + int((2.0 + T + 2.0) * 1e9) + len(order) * 4000 * W.MS + len(rel) * int((2 * T + 8.0) * 1e9)
     applog = {k: joiners[k].applog for k in ids}
     world.horizon = end_cap + 10 * 1000 * W.MS
 
@@ -243,6 +243,16 @@ def _run(ctx, case, net):
                             wait_quiet(nn)
                     r["cc_after_release"] = net.call(nn, "check_connection", o.check_connection, deadline_ms=3000)
                     r["rejoin"] = net.call(nn, "renew_address", o.renew_address, T, deadline_ms=(T + 2.5) * 1000)
+                    if r["rejoin"] is not None and not has_kids:
+                        # the master expires the lease (its public release_address(address)): the
+                        # node, asking about itself, must learn it (documented code -2 / False)
+                        pump_until(nn, wn.t + 20 * W.MS)
+                        wait_quiet(nn)
+                        r["cc_pm_before"] = net.call(nn, "check_connection", o.check_connection, 1, True, deadline_ms=3000)
+                        r["expired"] = master.obj.release_address(o.node_address)
+                        r["lk_own_expired"] = net.call(nn, "lookup_address", o.lookup_address, k, deadline_ms=2000)
+                        r["cc_pm_expired"] = net.call(nn, "check_connection", o.check_connection, 1, True, deadline_ms=3000)
+                        r["rejoin2"] = net.call(nn, "renew_address", o.renew_address, T, deadline_ms=(T + 2.5) * 1000)
                     r["old"] = old
                 except W.VirtualDeadline:
                     r["phase3"] = "no return"
@@ -407,6 +417,18 @@ def _run(ctx, case, net):
             if r.get("rejoin") is None:
                 ctx.violation("rejoin-failed", "ID %d could not re-join after release" % k, case)
                 return
+            if "cc_pm_expired" in r:
+                ctx.clause("expired_lease_noticed")
+                if (r["cc_pm_before"] is not True or r["expired"] is not True or r["lk_own_expired"] != -2
+                        or r["cc_pm_expired"] is not False):
+                    ctx.violation("expired-lease", "ID %d: check_connection(ping_master=True) = %r while leased; "
+                                  "after the master released its address (%r): lookup_address(own id) = %r "
+                                  "(documented -2), check_connection(ping_master=True) = %r (expected False)"
+                                  % (k, r["cc_pm_before"], r["expired"], r["lk_own_expired"], r["cc_pm_expired"]), case)
+                    return
+                if r.get("rejoin2") is None:
+                    ctx.violation("rejoin-failed", "ID %d could not re-join after its lease expired" % k, case)
+                    return
     relay_used = any(net_ref.level(a) >= 2 for a in conn.values())
     ctx.count("nodes_on_level_%d" % max([net_ref.level(a) for a in conn.values()] or [0]))
     ctx.nontrivial((len(ids), relay_used, max([net_ref.level(a) for a in conn.values()] or [0]), case["profiles"]["0"]["spi_overhead"], bool(case["no_children"]),
